@@ -1205,7 +1205,9 @@ pub fn decode_match(reader: &mut BitReader) -> Result<(Match, usize)> {
         }
         CompressionType::Far2Long => {
             let distance = reader.read_bits(16)? as u16;
-            let length = decode_variable_length(reader)? as u16 + MIN_FAR2_LONG_LENGTH as u16; // Add offset back
+            // Add offset back; the variable-length code can carry up to 30 bits
+            let length = u16::try_from(decode_variable_length(reader)? + MIN_FAR2_LONG_LENGTH as u32)
+                .map_err(|_| ZiporaError::invalid_data("Far2Long length out of range"))?;
             Match::Far2Long { distance, length }
         }
         CompressionType::Far3Long => {
